@@ -28,7 +28,6 @@ tvars == <<vdir, ddir, vcon, dcon, mkd, fdt, mode, vis, want, final, reponames, 
 
 R == Recs[ri]
 O == R.ops[k + 1]
-ToSet(s) == {s[j] : j \in DOMAIN s}
 
 TInit ==
   /\ ri = 0 /\ k = 0 /\ mode = "idle" /\ vis = EmptyFn
